@@ -58,10 +58,10 @@ Definition corr_codes (c : case) : list Z :=
   ++ corr_hist2 (snd t) (Z.of_nat (length pre)) (init_state2 (fst t)) hist.
 
 Definition vkind_eqb (a b : vkind) : bool :=
-  match a, b with VInt, VInt | VStr, VStr | VCInt, VCInt => true | _, _ => false end.
+  match a, b with VInt, VInt | VStr, VStr | VCInt, VCInt | VNoneOnly, VNoneOnly => true | _, _ => false end.
 Definition policy_eqb (a b : policy) : bool :=
   match a, b with
-  | PPython, PPython | PDisallow, PDisallow | PEvent None, PEvent None => true
+  | PPython, PPython | PDisallow, PDisallow | PEvent None, PEvent None | PList, PList => true
   | PEvent (Some k), PEvent (Some l) => vkind_eqb k l
   | PAny x, PAny y | PConstant x, PConstant y | PReadOnly x, PReadOnly y => Z.eqb x y
   | PMap m x, PMap l y => list_eqb (fun a b => Z.eqb (fst a) (fst b) && Z.eqb (snd a) (snd b)) m l && Z.eqb x y
